@@ -97,15 +97,17 @@ type scenario struct {
 	// explicit block contents of scripted scenarios: payload bytes of the matching tx (0: no matching tx)
 	script map[int64]int
 
-	closeBlocked bool
-	innerGap     bool
-	preds        [][2]string
-	cur          *call
-	marker       bool
-	stalls       int
-	redelivered  int
-	lostRecords  int
-	crashes      int
+	closeBlocked      bool
+	innerGap          bool
+	preds             [][2]string
+	cur               *call
+	marker            bool
+	stalls            int
+	recorded          int64 // last record written
+	oversizeDelivered bool
+	redelivered       int
+	lostRecords       int
+	crashes           int
 }
 
 func (s *scenario) log(e event) {
@@ -149,6 +151,9 @@ func (s *scenario) dataLen(seq int64) int {
 	}
 	if s.seqs.bigMod > 0 && seq%s.seqs.bigMod < 4 {
 		return 300 * 1024 // a run of large receipts: the 1 MB payload cap cuts the batch
+	}
+	if s.seqs.bigMod > 0 && seq%s.seqs.bigMod == 5 && s.seed%2 == 0 {
+		return maxSize + 5000 // a single block above the cap: must be posted alone
 	}
 	return 10 + int(mix(s.seed, seq)>>8)%50
 }
@@ -229,6 +234,7 @@ func (s *scenario) persisted(v int64) {
 		}
 	}
 	s.logLocked(event{kind: "persisted", a: v})
+	s.recorded = v
 }
 
 // every sequence with matching data in start..upto is in the acknowledged payload
@@ -827,8 +833,9 @@ func scripted(kind string) *scenario {
 		waitFor(3*time.Second, func() bool { return s.count("skip") >= 2 })
 		s.closePush(w.push)
 	case "exact-fit":
-		// a matching block whose message makes the batch exactly pushMaxSize is neither appended nor does
-		// it end the batch ("< maxSize" / "> maxSize"): it is counted as delivered
+		// regression witness (fixed in /repo 87f57a6): a matching block whose message makes the batch exactly
+		// pushMaxSize was neither appended nor did it end the batch ("< maxSize" / "> maxSize") and was
+		// counted as delivered; now it ends the batch and opens the next one
 		w := newWorld(s, 5, 5, 1)
 		defer w.close()
 		s.script[6] = 40
@@ -863,30 +870,25 @@ func scripted(kind string) *scenario {
 		}
 		w.start()
 		w.blocks(3)
-		waitFor(5*time.Second, func() bool { return s.count("persisted") >= 2 })
+		waitFor(10*time.Second, func() bool { s.mu.Lock(); defer s.mu.Unlock(); return s.recorded >= 8 })
 		s.closePush(w.push)
 	case "oversize":
-		// a matching block larger than pushMaxSize at the start of a range: nothing is posted, the cursor
-		// does not move, the loop notifies itself again — the subscriber never gets this or any later block
+		// regression witness (fixed in /repo 87f57a6): a matching block larger than pushMaxSize at the start
+		// of a range made getTxReceipts answer (nil, startSeq-1) and the loop spin without posting; now the
+		// block is posted alone and the next one follows
 		w := newWorld(s, 5, 5, 1)
 		defer w.close()
 		s.script[6] = maxSize + 1000
 		s.script[7] = 40
 		w.start()
 		w.blocks(2)
-		waitFor(3*time.Second, func() bool { s.mu.Lock(); defer s.mu.Unlock(); return s.stalls >= 200 })
+		done := waitFor(10*time.Second, func() bool { s.mu.Lock(); defer s.mu.Unlock(); return s.recorded >= 7 || s.stalls >= 200 })
 		s.closePush(w.push)
 		s.mu.Lock()
-		if s.stalls >= 200 {
-			posts := 0
-			for _, e := range s.events {
-				if e.kind == "post" {
-					posts++
-				}
-			}
-			s.pred("C32|getTxReceipts|oversize-block-stalls-subscriber",
-				fmt.Sprintf("%s: block 6 carries %d bytes of matching data (> pushMaxSize): the task read it %d times in a row without posting or moving on, %d posts, block 7 never delivered; log=%s",
-					s.name, s.script[6], s.stalls, posts, s.dumpLocked()))
+		if s.recorded >= 7 {
+			s.oversizeDelivered = true
+		} else if !done {
+			s.notes = append(s.notes, "oversize: blocks 6,7 not recorded within 10 s (no stall seen); log="+s.dumpLocked())
 		}
 		s.mu.Unlock()
 	case "store-fail", "crash":
@@ -924,6 +926,11 @@ func predicate(s *scenario) {
 	}
 	for _, p := range s.preds {
 		out.Pred(p[0], p[1])
+	}
+	if s.stalls >= 3 {
+		// liveness: the task went over the same start again and again without posting or moving on
+		out.Pred("C32|getTxReceipts|oversize-block-stalls-subscriber",
+			fmt.Sprintf("%s: the task read the same first block %d times in a row without posting or moving on; log=%s", s.name, s.stalls, s.dump()))
 	}
 	var lastAck int64 = -1 // end of the last acknowledged range
 	var maxAck int64 = -1  // largest sequence ever acknowledged
@@ -1055,6 +1062,9 @@ func report(s *scenario, sample bool) {
 	out.Stat("records_lost_store_error", int64(s.lostRecords))
 	out.Stat("crashes_between_ack_and_record", int64(s.crashes))
 	out.Stat("redeliveries_after_lost_record", int64(s.redelivered))
+	if s.oversizeDelivered {
+		out.Stat("oversize_first_block_posted_and_recorded", 1)
+	}
 	for _, nt := range s.notes {
 		out.Note(s.name + ": " + nt)
 	}
